@@ -5,6 +5,8 @@ CONSTANTS
   ReadDrops = {}
   ReReadKeys = {}
   InsertNewTagStoresChars = FALSE
+  ShallowCopy = FALSE
+  SrcSteps = 0
   Emit = FALSE
 SPECIFICATION TSpec
 CHECK_DEADLOCK FALSE
